@@ -19,5 +19,7 @@ for id in $IDS; do
   echo "$id rc=$rc $line | $why | $sum"
 done
 git -C /repo checkout -- . 
+# rebuild from the restored sources: the harness binary must never stay a mutant build
+( cd harness && cargo build --offline 2>&1 | grep -E "^error" -A8 | head -20 )
 git -C /repo status --short | grep -v '^??' | head -3
 rm -rf $XSV_ROOT/evidence
